@@ -4,26 +4,27 @@
 (* nondeterministic choice: every outcome is a set of disjoint valid pairs (each chain in at most one).     *)
 EXTENDS Integers, Sequences, FiniteSets, TLC
 CONSTANT MaxChains
-VARIABLES nc, cand, sample, phase, left
-vars == <<nc, cand, sample, phase, left>>
+VARIABLES nc, cand, sample, phase, left, picks, lpairs
+vars == <<nc, cand, sample, phase, left, picks, lpairs>>
 \* pairs (i, i+j), i in 0..nc-2, j in {1,2}, minus the last one (0-based indices as in the code)
 AllCand(n) == LET full == [x \in 1..(2 * (n - 1)) |-> <<(x - 1) \div 2, (x - 1) \div 2 + 1 + ((x - 1) % 2)>>]
               IN {full[x] : x \in 1..(2 * (n - 1) - 1)}
-Init == /\ nc \in 1..MaxChains /\ cand = (IF nc >= 2 THEN AllCand(nc) ELSE {}) /\ sample = {} /\ phase = "choose" /\ left = {}
+Init == /\ nc \in 1..MaxChains /\ cand = (IF nc >= 2 THEN AllCand(nc) ELSE {}) /\ sample = {} /\ phase = "choose" /\ left = {} /\ picks = <<>> /\ lpairs = <<>>
 Choose == /\ phase = "choose" /\ cand # {}
-          /\ \E p \in cand : /\ sample' = sample \cup {p}
+          /\ \E p \in cand : /\ sample' = sample \cup {p} /\ picks' = Append(picks, p)
                              /\ cand' = {q \in cand : q[1] # p[1] /\ q[1] # p[2] /\ q[2] # p[1] /\ q[2] # p[2]}
-          /\ UNCHANGED <<nc, phase, left>>
+          /\ UNCHANGED <<nc, phase, left, lpairs>>
 Used == UNION {{p[1], p[2]} : p \in sample}
 Leftover == /\ phase = "choose" /\ cand = {}
             /\ left' = (0..(nc - 1)) \ Used
             /\ phase' = (IF Cardinality(sample) # nc \div 2 THEN "pairleft" ELSE "done")
-            /\ UNCHANGED <<nc, cand, sample>>
+            /\ UNCHANGED <<nc, cand, sample, picks, lpairs>>
 PairLeft == /\ phase = "pairleft"
             /\ IF Cardinality(left) >= 2
                THEN \E a, b \in left : a < b /\ sample' = sample \cup {<<a, b>>} /\ left' = left \ {a, b} /\ UNCHANGED phase
-               ELSE phase' = "done" /\ UNCHANGED <<sample, left>>
-            /\ UNCHANGED <<nc, cand>>
+                                     /\ lpairs' = Append(lpairs, <<a, b>>)
+               ELSE phase' = "done" /\ UNCHANGED <<sample, left, lpairs>>
+            /\ UNCHANGED <<nc, cand, picks>>
 Next == Choose \/ Leftover \/ PairLeft
 Spec == Init /\ [][Next]_vars
 Valid(P) == /\ \A p \in P : p[1] \in 0..(nc - 1) /\ p[2] \in 0..(nc - 1) /\ p[1] < p[2]
